@@ -252,4 +252,86 @@ theorem gatherActive_eq (w : World NodeIds) (a0 a1 : Nat) (h01 : a0 ≤ a1) :
   · intro r _
     rw [List.length_replicate, slice_total w a0 a1 h01]
 
+/-- one slice as seen by one sorted id list `gs` that was already offset by the processed prefix `P` -/
+theorem step_list (P S gs : List Int) (hPS : (P ++ S).Nodup) (hg : gs.Pairwise (· ≤ ·))
+    (hdis : ∀ g ∈ gs, g ∉ P ++ S) :
+    elimOffset (gs.map (elim P)) (sortGlob (S.map (elim P))) = gs.map (elim (P ++ S)) := by
+  have hP : P.Nodup := (List.nodup_append.mp hPS).1
+  rw [elimOffset_eq_map _ _ (sortGlob_sorted _) (map_elim_sorted P gs hP hg), List.map_map]
+  apply List.map_congr_left
+  intro g hgm
+  simp only [Function.comp]
+  rw [elim_perm _ _ (sortGlob_perm _), elim_slices P S hPS g (hdis g hgm)]
+
+theorem sliceLocals_flatten (w : World NodeIds) (a0 a1 : Nat) :
+    (sliceLocals w a0 a1).flatten = ((((Us w).take a1).drop a0).flatten).map (elim (Pfx w a0)) := by
+  have : sliceLocals w a0 a1
+      = (Us w).mapIdx fun r u => if a0 ≤ r ∧ r < a1 then (List.map (elim (Pfx w a0))) u else [] := by
+    unfold sliceLocals Us
+    rw [mapIdx_map']
+  rw [this, flatten_mapIdx_window, List.map_flatten]
+
+theorem Pfx_succ (w : World NodeIds) (a0 a1 : Nat) (h : a0 ≤ a1) :
+    Pfx w a1 = Pfx w a0 ++ (((Us w).take a1).drop a0).flatten := take_flatten_split _ a0 a1 h
+
+theorem Pfx_sublist (w : World NodeIds) (a : Nat) : (Pfx w a).Sublist (Us w).flatten :=
+  List.Sublist.flatten (List.take_sublist _ _)
+
+theorem later_not_in_Pfx (w : World NodeIds) (hn : (Us w).flatten.Nodup) (a r : Nat) (har : a ≤ r)
+    (hr : r < w.length) (u : Int) (hu : u ∈ sortedUnused (w[r])) : u ∉ Pfx w a := by
+  have hsplit : (Us w).flatten = Pfx w a ++ ((Us w).drop a).flatten := by
+    unfold Pfx
+    rw [← List.flatten_append, List.take_append_drop]
+  rw [hsplit] at hn
+  have hdis := (List.nodup_append.mp hn).2.2
+  intro hmem
+  have hrU : r < (Us w).length := by simpa [Us] using hr
+  have : u ∈ ((Us w).drop a).flatten := by
+    rw [List.mem_flatten]
+    refine ⟨sortedUnused (w[r]), ?_, hu⟩
+    have h1 : r - a < ((Us w).drop a).length := by rw [List.length_drop]; omega
+    rw [List.mem_iff_getElem]
+    refine ⟨r - a, h1, ?_⟩
+    simp only [List.getElem_drop, Us, List.getElem_map]
+    have e : a + (r - a) = r := by omega
+    simp only [e]
+  exact hdis u hmem u this rfl
+
+theorem sliceStep_eq (w : World NodeIds) (h : ElimHyp w) (a0 a1 : Nat) (h01 : a0 < a1) (h1 : a1 ≤ w.length) :
+    sliceStep (countsOf w) a0 a1 (loopState w a0) = loopState w a1 := by
+  unfold sliceStep
+  simp only []
+  rw [gatherActive_eq w a0 a1 (by omega), sliceLocals_flatten]
+  generalize hS : (((Us w).take a1).drop a0).flatten = S
+  have hP1 : Pfx w a1 = Pfx w a0 ++ S := by rw [← hS]; exact Pfx_succ w a0 a1 (by omega)
+  have hPS : (Pfx w a0 ++ S).Nodup := by rw [← hP1]; exact (Pfx_sublist w a1).nodup h.nodup
+  apply List.ext_getElem
+  · simp [loopState]
+  · intro i hi1 hi2
+    have hi : i < w.length := by simpa [loopState] using hi2
+    simp only [List.getElem_mapIdx, List.getElem_zip, List.getElem_map, loopState]
+    have hkeys : elimOffset ((w[i]).keys.map (elim (Pfx w a0))) (sortGlob (S.map (elim (Pfx w a0))))
+        = (w[i]).keys.map (elim (Pfx w a1)) := by
+      have := step_list (Pfx w a0) S (w[i]).keys hPS (h.keys_sorted _ (List.getElem_mem hi))
+        (by intro g hg hmem
+            rw [← hP1] at hmem
+            exact h.keys_disj _ (List.getElem_mem hi) g hg ((Pfx_sublist w a1).subset hmem))
+      rw [← hP1] at this; exact this
+    rw [hkeys]
+    congr 1
+    by_cases hwin : a0 ≤ i ∧ i < a1
+    · have : i < a1 := hwin.2
+      simp [hwin, this, elimOffset, elimOffsetGo]
+    · by_cases hlo : i < a0
+      · have : i < a1 := by omega
+        simp [hwin, hlo, this, elimOffset, elimOffsetGo]
+      · have hge : a1 ≤ i := by omega
+        have hn1 : ¬ i < a1 := by omega
+        rw [if_neg hwin, if_neg hlo, if_neg hn1]
+        have := step_list (Pfx w a0) S (sortedUnused (w[i])) hPS (sortGlob_sorted _)
+          (by intro g hg
+              rw [← hP1]
+              exact later_not_in_Pfx w h.nodup a1 i hge hi g hg)
+        rw [← hP1] at this; exact this
+
 end Refine.Lemmas.DistSync
